@@ -825,6 +825,23 @@ Proof.
   apply versym_iter_ok. exact Htab.
 Qed.
 
+(* several version sections in ONE file: every answer is a function of (image, header table, section index)
+   alone, so each section is resolved through ITS OWN sh_link whatever else the file holds and whatever was
+   asked before; definitions, requirements and the version-symbol table of one file, with three (possibly
+   different) string tables *)
+Theorem one_file_sections_exact le is64 img shdrs nd nn nv defs needs entries :
+  verdef_section_wf le img shdrs nd defs = true ->
+  verneed_section_wf le img shdrs nn needs = true ->
+  versym_section_wf le is64 img shdrs nv entries = true ->
+  file_verdef_versions le is64 img shdrs (Z.of_nat nd) = Ok (map verdef_view defs)
+  /\ file_verneed_versions le is64 img shdrs (Z.of_nat nn) = Ok (map verneed_view needs)
+  /\ file_versym_symbols le is64 img shdrs (Z.of_nat nv) = Ok (map versym_view entries).
+Proof.
+  intros Hd Hn Hv. split; [exact (proj1 (verdef_section_exact le is64 _ _ _ _ Hd))|].
+  split; [exact (proj1 (verneed_section_exact le is64 _ _ _ _ Hn))|].
+  exact (proj1 (versym_section_exact le is64 _ _ _ _ Hv)).
+Qed.
+
 (* the six record layouts this property reads, as regenerated from the live code, are the standard ones *)
 Lemma layouts_standard le is64 :
   gen_Elf_Verdef le is64 = spec_Elf_Verdef le /\ gen_Elf_Verdaux le is64 = spec_Elf_Verdaux le /\
